@@ -162,12 +162,53 @@ let run_read (name : string) (root : int) (src : source) (want_reenc : bool) : s
                 let (mine, rest) = split nr asts [] in
                 let (st', bytes) = frame_encode tree fl st mine in
                 Buffer.add_string out (Printf.sprintf " f:%d:%d:%d" (int_of_n fl) nr (List.length content));
+                let (_, tr) = frame_encode_trace tree fl st mine in
+                List.iter (fun ((bits, sd), td) ->
+                  Buffer.add_string out (Printf.sprintf " m:%s:%s:%s" (string_of_n bits) (string_of_n sd)
+                    (String.concat "," (List.map (fun (k, c) -> Printf.sprintf "%s=%s" (BigZ.to_string (z_of_pos k)) (string_of_n c)) td)))) tr;
                 if bytes = content then frames src' st' rest (k + 1)
                 else Buffer.add_string out (Printf.sprintf " reenc:diff@%d:%s" k (hexs bytes)))) in
         (* skip the var header frame: reader_open consumed it; rd.rd_src is positioned after it *)
         frames rd.rd_src wst0 asts 0
       | _ -> Buffer.add_string out " reenc:skip"));
   Buffer.contents out
+
+(* C06: interleaved appends and reads on one uncompressed stream *)
+let run_c06 (name : string) (root : int) (ops : string list) : string =
+  let sc = Hashtbl.find schemas name in
+  let rootn = n_of_int root in
+  let sizes = sizes_fun name in
+  let pending = ref [] in           (* bytes not yet seen by a reader *)
+  let rd : reader option ref = ref None in
+  let out = List.filter_map (fun op ->
+    match String.split_on_char ':' op with
+    | ["a"; h] ->
+      let b = bytes_of_hex h in
+      (match !rd with
+       | None -> pending := !pending @ b
+       | Some r ->
+         (match r.rd_src with
+          | SrcBytes rest -> rd := Some { r with rd_src = SrcBytes (rest @ b) }
+          | _ -> ()));
+      None
+    | ["o"] ->
+      (match parse_fixed_header !pending with
+       | Inl e -> Some ("o=" ^ perrname e)
+       | Inr (_, rest) ->
+         (match reader_open sc rootn (SrcBytes rest) with
+          | Inl e -> Some ("o=" ^ perrname e)
+          | Inr r -> rd := Some r; Some "o=ok"))
+    | [("r" | "rf") as k] ->
+      (match !rd with
+       | None -> Some (k ^ "=noreader")
+       | Some r ->
+         (match reader_read sizes fuel loopk (k = "rf") r with
+          | RdRecord (r', _) -> rd := Some r'; Some (k ^ "=rec:" ^ dump_root sc rootn r'.rd_rec)
+          | RdEndOfFrame _ -> Some (k ^ "=eoframe")
+          | RdEnd -> Some (k ^ "=eof")
+          | RdErr (trunc, e) -> Some (k ^ "=" ^ (if trunc then "trunc" else "err:" ^ errname e))))
+    | _ -> Some "badop") ops in
+  String.concat " " out
 
 let handle line =
   match split_on ' ' line with
@@ -184,6 +225,7 @@ let handle line =
        if int_of_n compr <> 0 then "open:compressed"
        else run_read name (int_of_string root) (SrcBytes rest) true)
   | ["read"; name; root; "frames"; spec] -> run_read name (int_of_string root) (parse_frames_spec spec) true
+  | "c06" :: name :: root :: ops -> run_c06 name (int_of_string root) ops
   | ["counts"; name; root] ->
     let sc = Hashtbl.find schemas name in
     String.concat "," (List.map string_of_n (own_counts sc (n_of_int (int_of_string root))))
